@@ -5,7 +5,7 @@ import heapq
 from gcommon import *
 
 THEOREMS = ["Parmcb.C12." + t for t in ["c12_lexLess_irrefl", "c12_lexLess_asymm", "c12_lexLess_trans", "c12_lexLess_total",
-            "c12_dist_lower", "c12_dist_attained", "c12_first"]]
+            "c12_dist_lower", "c12_dist_attained", "c12_first", "c12_dijkstra"]]
 
 def dijkstra(n, WE, s):
     adj = {}
@@ -55,7 +55,7 @@ def oracle(case, block):
 
 def run(tier, replay=None):
     res = Result("C12", tier, "proof")
-    res.assumptions = ["c12_dijkstra_partial: that the literal Dijkstra model passes its own certificate for every graph is not proved; the certificate (proved sound) is evaluated on every tree of the model's counterpart in the C++ per run",
+    res.assumptions = ["c12_consistency_partial: the S-level uniqueness theorems behind reversal / sub-path consistency are not proved; consistency is checked per run on the C++ trees",
                        "heap layout cannot matter: queued labels are totally ordered by lexLess (c12_lexLess_*)"]
     lean_ok = lean_gate(res, "Parmcb.Props.C12", THEOREMS)
     binary, log = compile_harness("h_graph.cpp", sanitize=(tier == "thorough"))
